@@ -78,6 +78,7 @@ class StepClock:
         self.interrupt_site = None
         self.installed = False
         self.on_interrupt = None
+        self.interrupt_exc = None
 
     # -- installation -----------------------------------------------------
     def install(self):
@@ -103,7 +104,8 @@ class StepClock:
         self.installed = False
 
     # -- per-operation arming ----------------------------------------------
-    def arm(self, fine=False, interrupt_at=None, sweep_cap=None, step_cap=None):
+    def arm(self, fine=False, interrupt_at=None, sweep_cap=None, step_cap=None, interrupt_exc=None):
+        self.interrupt_exc = interrupt_exc
         if fine != self.fine or fine:
             mon.restart_events()
         self.fine = fine
@@ -140,6 +142,9 @@ class StepClock:
             cb = self.on_interrupt
             if cb is not None:
                 cb()
+            if self.interrupt_exc is not None:
+                # a failing allocation: an ordinary Exception subclass raised at an arbitrary step
+                raise self.interrupt_exc("injected at " + self.interrupt_site)
             raise SimInterrupt(self.interrupt_site)
         sc = self.step_cap
         if sc is not None and self.steps >= sc:
